@@ -173,22 +173,47 @@ theorem capture_isolated (cfg : Cfg) (sh : Shared) (progs : List (List Op)) (hf 
   have h2 := o.ownE u x hmem
   omega
 
-/-- **record_order_eq_file_order.**  With recording on, under every schedule the record holds, in the same
-order, exactly the (non-empty) pieces that are in the file — plus, while some thread is between its record
-append and its `file.write` (it then holds the console lock), that thread's buffer at the end. -/
+/-- **record_order_eq_file_order.**  With recording on, under every schedule — threads may call
+`export_text` / `export_html` (clearing or not) at any time — what the clearing exports returned so far (in
+the order of their critical sections) followed by the current record is, piece for piece and in the same
+order, what is in the file; plus, while some thread is between its record append and its `file.write` (it
+then holds the console lock), that thread's buffer at the end. -/
 theorem record_order_eq_file_order (cfg : Cfg) (hrec : cfg.record = true) (sh : Shared) (progs : List (List Op))
-    (hf : Fresh sh) (s : State) (hr : Reach cfg sh progs s) :
-    s.sh.record.filter nonEmpty = (fileItems s ++ pend s).filter nonEmpty := by
+    (hf : Fresh sh) (hx : sh.exports = []) (s : State) (hr : Reach cfg sh progs s) :
+    (exportsItems s ++ s.sh.record).filter nonEmpty = (fileItems s ++ pend s).filter nonEmpty := by
   obtain ⟨sched, rfl⟩ := hr
-  refine rec_run hrec sched (inv_init sh progs hf.free) ?_
-  simp [RecInv, initState, fileItems, pend, hf.file, hf.record, hf.free]
+  refine (rec_run hrec sched (inv_init sh progs hf.free) ⟨?_, ?_⟩).ri
+  · simp [RecInv, initState, fileItems, pend, exportsItems, hf.file, hf.record, hf.free, hx]
+  · exact ⟨fun t h => by simp [initState] at h, fun t h => by simp [initState] at h⟩
 
-/-- …in particular whenever no flush is in progress (the console lock is free) the record *is* the file. -/
+/-- **exports_partition_the_record.**  For every schedule, whenever no flush is in progress (the console lock
+is free): the concatenation of what all clearing exports returned, plus the record as it is now, equals what
+was written to the file, in file order — nothing is lost between an exporter's read and its clear, nothing
+appears in two exports. -/
+theorem exports_partition_the_record (cfg : Cfg) (hrec : cfg.record = true) (sh : Shared) (progs : List (List Op))
+    (hf : Fresh sh) (hx : sh.exports = []) (s : State) (hr : Reach cfg sh progs s) (hq : s.sh.owner .console = none) :
+    (s.sh.exports.flatMap (·.2) ++ s.sh.record).filter nonEmpty = (fileItems s).filter nonEmpty := by
+  have := record_order_eq_file_order cfg hrec sh progs hf hx s hr
+  simpa [pend, hq, exportsItems] using this
+
+/-- A thread in the middle of an export holds the record lock and what it has read is still the record: no
+print can slip in between an exporter's read and its clear. -/
+theorem export_reads_a_stable_record (cfg : Cfg) (hrec : cfg.record = true) (sh : Shared) (progs : List (List Op))
+    (hf : Fresh sh) (hx : sh.exports = []) (s : State) (hr : Reach cfg sh progs s) (t : Nat)
+    (hxr : (s.th t).xread = true) : Lock.record ∈ (s.th t).held ∧ (s.th t).xcopy = s.sh.record := by
+  obtain ⟨sched, rfl⟩ := hr
+  have ra := rec_run hrec sched (inv_init sh progs hf.free)
+    ⟨by simp [RecInv, initState, fileItems, pend, exportsItems, hf.file, hf.record, hf.free, hx],
+     ⟨fun t h => by simp [initState] at h, fun t h => by simp [initState] at h⟩⟩
+  exact ⟨ra.x.held t hxr, ra.x.copy t hxr⟩
+
+/-- Without exports in the programs and whenever no flush is in progress the record *is* the file. -/
 theorem record_eq_file_when_quiet (cfg : Cfg) (hrec : cfg.record = true) (sh : Shared) (progs : List (List Op))
-    (hf : Fresh sh) (s : State) (hr : Reach cfg sh progs s) (hq : s.sh.owner .console = none) :
+    (hf : Fresh sh) (hx : sh.exports = []) (s : State) (hr : Reach cfg sh progs s) (hq : s.sh.owner .console = none)
+    (hnone : s.sh.exports = []) :
     s.sh.record.filter nonEmpty = (fileItems s).filter nonEmpty := by
-  have := record_order_eq_file_order cfg hrec sh progs hf s hr
-  simpa [pend, hq] using this
+  have := exports_partition_the_record cfg hrec sh progs hf hx s hr hq
+  simpa [hnone] using this
 
 /-- A constant-height session: the display is installed, what it recorded and what it will render have `h`
 rows, and the threads only print / log, refresh, and update to renderables of `h` rows (no thread starts
@@ -305,6 +330,20 @@ example :
     let s := run (cfgP false) (initState shP progsP) schedP
     (replay 8 Screen.init (fileOps s)).rows = [['a', ' ', '0', '/', '9'], []] ∧ s.sh.shape = some (5, 1) ∧ s.sh.started = true ∧
       ((List.range 2).all fun t => (s.th t).done) = true := by
+  decide
+
+/-! ## Exports under schedules: a concrete run -/
+
+set_option maxRecDepth 100000 in
+/-- Two printing threads and a thread exporting twice with `clear=True`; the first export is preempted between its
+read and its clear while thread 2 prints `c` (which therefore has to wait for the record lock): the two exports and the
+final record partition the three writes. -/
+example :
+    let cfg : Cfg := { kind := .none, width := 20, height := 8, record := true, transient := false }
+    let s := run cfg (initState {} [[.print [['a']], .print [['b']]], [.export true, .export true], [.print [['c']]]])
+      (List.replicate 14 0 ++ List.replicate 3 1 ++ List.replicate 20 2 ++ List.replicate 2 1 ++ List.replicate 20 2 ++ List.replicate 20 0 ++ List.replicate 10 1)
+    (s.sh.exports.map (fun e => (e.1, itemsOps e.2))) = [(1, [.text ['a'], .lf]), (1, [.text ['c'], .lf, .text ['b'], .lf])] ∧
+      s.sh.record = [] ∧ itemsOps (fileItems s) = [.text ['a'], .lf, .text ['c'], .lf, .text ['b'], .lf] := by
   decide
 
 /-! ## Non-vacuity -/
